@@ -1,6 +1,7 @@
 (* C14  Concurrent processes: no lost entries, no phantom or torn reads.
    Only statements, each closed by a lemma of Store/*.v, with Print Assumptions. *)
 From Klepto Require Import OMap OMapFacts DictSpec FileArch FileConc DirProto.
+From Klepto Require Backends SqlConc.
 
 (* single file: a reader scheduled at any point of a save sees a complete earlier or later dictionary *)
 Theorem C14_file_reader_sees_complete : forall fs m n,
@@ -67,6 +68,50 @@ Theorem C14_dir_list_then_lookup_race_refuted :
   exists fs n t, readable fs /\ entry fs n <> None /\ entry (DirProto.drun fs (firstn 1 (remove n t))) n = None.
 Proof. exact reader_list_then_lookup_race_refuted. Qed.
 
+(* SQL table (every operation is one transaction): ANY schedule of whole operations of ANY number of
+   processes.  If process p names only keys of a region S and nobody else names a key of S, then p
+   is answered exactly as if it ran alone and the table ends, on S, exactly as if p had run alone *)
+Theorem C14_sql_isolated_process : forall (S : key -> Prop) p l, SqlConc.disciplined S p l -> forall r r',
+  (forall k, S k -> Backends.sql_select r k = Backends.sql_select r' k) ->
+  snd (SqlConc.sql_sched p r l) = snd (SqlConc.sql_alone r' (SqlConc.mine p l)) /\
+  forall k, S k -> Backends.sql_select (fst (SqlConc.sql_sched p r l)) k =
+                   Backends.sql_select (fst (SqlConc.sql_alone r' (SqlConc.mine p l))) k.
+Proof. exact SqlConc.sql_isolated. Qed.
+
+(* the same for the dict specification itself, hence for every store that refines it per operation *)
+Theorem C14_atomic_store_isolated_process : forall (S : key -> Prop) (T : Type) (step : T -> dop -> T * dout) (abs : T -> omap),
+  (forall t o, same_contents (abs (fst (step t o))) (fst (dstep (abs t) o)) /\
+               DictFacts.out_equiv (snd (step t o)) (snd (dstep (abs t) o))) ->
+  forall p l, SqlConc.disciplined S p l -> forall t u, SqlConc.agree_on S (abs t) (abs u) ->
+  snd (SqlConc.run_sched T step p t l) = snd (SqlConc.run_alone T step u (SqlConc.mine p l)) /\
+  SqlConc.agree_on S (abs (fst (SqlConc.run_sched T step p t l))) (abs (fst (SqlConc.run_alone T step u (SqlConc.mine p l)))).
+Proof. exact SqlConc.isolated. Qed.
+
+Theorem C14_sql_two_writers_both_land : forall r k1 v1 k2 v2, k1 <> k2 ->
+  forall l, l = [(1%nat, DSet k1 v1); (2%nat, DSet k2 v2)] \/ l = [(2%nat, DSet k2 v2); (1%nat, DSet k1 v1)] ->
+  let r' := fst (SqlConc.sql_sched 0%nat r l) in
+  Backends.sql_select r' k1 = Some v1 /\ Backends.sql_select r' k2 = Some v2 /\
+  forall k, k <> k1 -> k <> k2 -> Backends.sql_select r' k = Backends.sql_select r k.
+Proof. exact SqlConc.sql_two_writers. Qed.
+
+(* the discipline is necessary: a concurrent clear() is a whole-store operation *)
+Theorem C14_sql_clear_breaks_isolation_refuted :
+  exists l, SqlConc.mine 1%nat l = [DSet 1 10; DGet 1] /\
+    snd (SqlConc.sql_alone [] (SqlConc.mine 1%nat l)) = [RUnit; RVal (Some 10)] /\
+    snd (SqlConc.sql_sched 1%nat [] l) = [RUnit; RKeyError].
+Proof. exact SqlConc.sql_clear_not_isolated. Qed.
+
+(* non-vacuity: a three-process schedule that meets the discipline for process 1 with S = {1, 2} *)
+Example C14_sql_discipline_witness :
+  SqlConc.disciplined (fun k => k = 1 \/ k = 2) 1%nat
+    [(1%nat, DSet 1 10); (2%nat, DSet 5 50); (3%nat, DDel 7); (1%nat, DUpdate [(2, 20)]); (2%nat, DPop 5 None); (1%nat, DGet 2)].
+Proof.
+  intros q o H. cbn in H.
+  repeat (destruct H as [H|H];
+    [injection H as <- <-; cbn; first [ now auto | (intros [X|X]; discriminate X) | (intros k [<-|[]]; now auto) ]|]).
+  contradiction.
+Qed.
+
 Example C14_interleaving_exists :
   interleave (store 1 1 10 100 101) (store 2 2 20 200 201)
     [MkTemp 100; MkTemp 200; Fill 200 2 20; Fill 100 1 10; MoveAside 1 101; MoveAside 2 201; RmTemp 201; MoveIn 200 2; RmTemp 101; MoveIn 100 1].
@@ -83,3 +128,7 @@ Print Assumptions C14_file_writer_reader_all_interleavings.
 Print Assumptions C14_file_readers_only.
 Print Assumptions C14_file_writer_opener_lost_write_refuted.
 Print Assumptions C14_file_writer_opener_serial.
+Print Assumptions C14_sql_isolated_process.
+Print Assumptions C14_atomic_store_isolated_process.
+Print Assumptions C14_sql_two_writers_both_land.
+Print Assumptions C14_sql_clear_breaks_isolation_refuted.
